@@ -34,7 +34,7 @@ pub(crate) fn output_line_expectation(escaper: &Escaper, line: &[u8]) -> String 
     let line = line.trim_newlines();
     let verbatim = lossy_string!(line);
     let expectation = escaper.escaped_expectation(line);
-    if expectation != verbatim {
+    let rendered = if expectation != verbatim {
         // escaped expectations ignore the tailing newline
         expectation
     } else if !eol {
@@ -43,6 +43,12 @@ pub(crate) fn output_line_expectation(escaper: &Escaper, line: &[u8]) -> String 
         format!("{verbatim} (equal)")
     } else {
         verbatim
+    };
+    if rendered.starts_with("$ ") || rendered.starts_with("> ") {
+        // would be read back as (part of) a command, e.g. `$ foo`, `> foo` or `$ (no-eol)`
+        escaper.escaped_with_leading_sequence(line)
+    } else {
+        rendered
     }
 }
 
